@@ -232,7 +232,10 @@ class MessageManager(interfaces.TokenInterface, interfaces.MessageManager):
 
         key = (message.remote, message.mid)
         if key in self._recent_messages:
-            self._recent_messages[key] = message
+            # A copy, as the message is not ours alone: the application may
+            # return the same object for its next request, and token, remote,
+            # type and message ID are set on it again on its way out.
+            self._recent_messages[key] = message.copy()
 
     #
     # coap dispatch, message-type sublayer: retransmission handling
